@@ -147,10 +147,13 @@ def impl(case):
     if len(set(labs)) != n:
         return {"err": "harness:labels-not-distinct"}
     G, dn, bn = build(case, labs)
-    before = C.snapshot(G)
     kw = {}
     if case.get("names"):
         kw = {"directed_edge_name": dn, "bidirected_edge_name": bn}
+    if C.warm_decide({k_: case[k_] for k_ in ("g", "labs")}, 4):
+        # query, edit the same object in place, query again (see common.warmup)
+        C.warmup(G, lambda: pywhy_nx.bidirected_to_unobserved_confounder(G, **kw), layers=(bn, dn))
+    before = C.snapshot(G)
     try:
         R = pywhy_nx.bidirected_to_unobserved_confounder(G, **kw)
     except Exception as e:
